@@ -81,6 +81,7 @@ struct Scenario {
   map<string, string> ddtext;  // forced (possibly invalid) dyndep file text
   JV hist;
   JV raw;
+  string twin;   // "", "deps" or "dyn": also run the variant with the discovered information written into the manifest
 };
 
 static Stmt ParseStmt(const JV& j) {
@@ -108,6 +109,7 @@ static Scenario ParseScenario(const JV& j) {
   for (auto& s : j["stmts"].a) sc.stmts.push_back(ParseStmt(s));
   for (auto& p : j["ddtext"].o) sc.ddtext[p.first] = p.second.str();
   sc.hist = j["hist"];
+  sc.twin = j["twin"].str();
   return sc;
 }
 
@@ -886,7 +888,7 @@ static string MsgClass(const string& m) {
 static void WriteManifest(Scenario& sc) { g_disk.Put("build.ninja", RenderManifest(sc), false); }
 
 // One full execution of a scenario's history with the current chooser.
-static void RunOnce(Scenario sc /* by value: versions change */, long run_no) {
+static void RunOnce(Scenario sc /* by value: versions change */, long run_no, int tw = 0) {
   g_disk = ModelDisk();
   g_sc = &sc;
   g_by_out.clear();
@@ -908,7 +910,8 @@ static void RunOnce(Scenario sc /* by value: versions change */, long run_no) {
       g_disk.Put(s.dd, DdText(sc, s.dd), false);
   for (auto& s : sc.stmts) if (s.badrspdir) g_disk.unwritable_dirs.insert("nodir");
   WriteManifest(sc);
-  Emit("{\"e\":\"Reset\",\"sc\":" + JEsc(sc.id) + ",\"run\":" + to_string(run_no) + ",\"g\":" + GraphJson(sc) + ",\"tree\":" + g_disk.Tree() + "}");
+  Emit("{\"e\":\"Reset\",\"sc\":" + JEsc(sc.id) + ",\"run\":" + to_string(run_no) + ",\"tw\":" + to_string(tw) + ",\"twk\":" + JEsc(sc.twin) +
+       ",\"g\":" + GraphJson(sc) + ",\"tree\":" + g_disk.Tree() + "}");
 
   for (auto& step : sc.hist.a) {
     string op = step["op"].str();
@@ -938,7 +941,10 @@ static void RunOnce(Scenario sc /* by value: versions change */, long run_no) {
     string extra;
     if (op == "edit") {
       string f = step["f"].str();
-      g_disk.Put(f, Term(f, to_string(++srcver[f]), {}), true);
+      bool isdd = false;
+      for (auto& s : sc.stmts) if (s.dd == f) isdd = true;
+      if (isdd) g_disk.Put(f, DdText(sc, f), false);   // a dyndep file that is a source keeps a valid content
+      else g_disk.Put(f, Term(f, to_string(++srcver[f]), {}), true);
     } else if (op == "touch") {
       string f = step["f"].str();
       auto it = g_disk.files.find(f);
@@ -972,6 +978,28 @@ static void RunOnce(Scenario sc /* by value: versions change */, long run_no) {
     Emit("{\"e\":\"EndRun\",\"choices\":" + c + "]}");
   }
   g_sc = nullptr;
+}
+
+// The same scenario with the discovered information written into the manifest.
+static Scenario TwinOf(const Scenario& sc) {
+  Scenario t = sc;
+  for (auto& s : sc.stmts)   // the dyndep files keep their content
+    if (!s.dd.empty() && !t.ddtext.count(s.dd)) t.ddtext[s.dd] = DdText(sc, s.dd);
+  for (auto& s : t.stmts) {
+    if (sc.twin == "deps" && !s.deps.empty()) {
+      s.im.insert(s.im.end(), s.hdrs.begin(), s.hdrs.end());
+      s.hdrs.clear();
+      s.deps.clear();
+    }
+    if (sc.twin == "dyn" && !s.dd.empty()) {
+      s.im.insert(s.im.end(), s.ddi.begin(), s.ddi.end());
+      s.iouts.insert(s.iouts.end(), s.ddo.begin(), s.ddo.end());
+      s.restat = s.restat || s.ddr;
+      s.ddi.clear(); s.ddo.clear(); s.ddr = false; s.dd.clear();
+    }
+  }
+  // manifest variants inside the history get the same treatment
+  return t;
 }
 
 int main(int argc, char** argv) {
@@ -1026,11 +1054,16 @@ int main(int argc, char** argv) {
     // stateless DFS over the choice points
     vector<int> prefix = fixed;
     long runs = 0;
+    if (!sc.twin.empty()) {
+      g_ch = Chooser();
+      RunOnce(TwinOf(sc), -1, 1);
+      ++total_runs;
+    }
     while (true) {
       g_ch = Chooser();
       g_ch.prefix = prefix;
       g_ch.rng = seed * 2654435761u + (unsigned)my * 40503u + (unsigned)runs;
-      RunOnce(sc, runs);
+      RunOnce(sc, runs, sc.twin.empty() ? 0 : 2);
       ++runs; ++total_runs;
       if (has_fixed) break;
       // next prefix: increment the last choice that can be incremented
